@@ -114,9 +114,6 @@ int Topo_Cart__rank(struct Topo_Cart* self, int* coords, int* rank)
 #define SHW(i, sign) ((i) == direction ? MOD(TGT(sign), g_dims[direction]) : POS(i))
 #define NEIGHBOUR_WRAPPED(sign) HORNER(SHW(0, sign), SHW(1, sign), SHW(2, sign), SHW(3, sign))
 int Topo_Cart__shift(struct Topo_Cart* self, int direction, int disp, int* rank_source, int* rank_dest)
-#ifdef C33_EXCLUDE_FINDING /* known finding: direction == ndims is accepted and indexes one past the end of the vectors */
-    __CPROVER_requires(direction != NDIMS)
-#endif
     __CPROVER_requires(self == &g_t && WF_TOPO && WF_POS && vf_exc == 0 && direction >= 0)
     __CPROVER_requires(-1000000 <= disp && disp <= 1000000) /* excludes signed overflow of position + disp only */
     __CPROVER_requires(__CPROVER_is_fresh(rank_source, sizeof(int)) && __CPROVER_is_fresh(rank_dest, sizeof(int)))
@@ -190,19 +187,9 @@ int assignnodes(int ndim, struct vf_seq_int* factors, struct vf_seq_int* dims)
 #define ISFREE(i) ((i) < ndims && ODIM(i) == 0)
 #define ANYFREE (ISFREE(0) || ISFREE(1) || ISFREE(2) || ISFREE(3))
 #define DIM_DOMAIN(i) (-MAXN <= g_c[i] && g_c[i] <= MAXN)
-/* class of inputs of the known finding (specs/C33/replay.cpp reproduces it on the real code): every given entry divides
- * nnodes but their product does not, e.g. nnodes=2, dims=[2,2,0] -> MPI_SUCCESS with [2,2,1] */
-#define GIVEN_NOW(i) ((i) < ndims && g_c[i] != 0 ? g_c[i] : 1)
-#define DIVIDES_NOW(i) (nnodes % GIVEN_NOW(i) == 0)
-#define NONNEG_NOW(i) (!((i) < ndims) || g_c[i] >= 0)
-#define C33_FINDING                                                                                                    \
-  (ALL4(NONNEG_NOW) && ALL4(DIVIDES_NOW) && nnodes % (GIVEN_NOW(0) * GIVEN_NOW(1) * GIVEN_NOW(2) * GIVEN_NOW(3)) != 0)
 int Topo_Cart__Dims_create(struct Topo_Cart* self, int nnodes, int ndims, int* dims)
     __CPROVER_requires(dims == g_c && 1 <= nnodes && nnodes <= MAXN && 1 <= ndims && ndims <= ND && ALL4(DIM_DOMAIN) &&
                        vf_exc == 0)
-#ifdef C33_EXCLUDE_FINDING /* after the clause that bounds the entries: the products below must not overflow */
-    __CPROVER_requires(!C33_FINDING)
-#endif
     __CPROVER_assigns(__CPROVER_object_whole(g_c))
     __CPROVER_ensures(vf_exc == 0)
     __CPROVER_ensures(__CPROVER_return_value != OK_ ||
@@ -286,7 +273,7 @@ void harness(void)
   VF_CANARY_POINT;
 }
 #endif
-#if defined(H_shift) || defined(H_shift_outside_finding)
+#ifdef H_shift
 void harness(void)
 {
   setup();
@@ -315,7 +302,7 @@ void harness(void)
   VF_CANARY_POINT;
 }
 #endif
-#if defined(H_dims_create) || defined(H_dims_create_outside_finding)
+#ifdef H_dims_create
 void harness(void)
 {
   setup();
